@@ -263,7 +263,7 @@ def evaluate(r, prop, known):
             f = fc.fn(c['name'], c['within'])
         except Exception:
             return []
-        body = fc.text[f.body_open:f.body_close] if f.body_open >= 0 else ''
+        body = ''.join(ch if fc.mask[f.body_open + i] else ' ' for i, ch in enumerate(fc.text[f.body_open:f.body_close])) if f.body_open >= 0 else ''
         return sorted(n for n in uncontracted if re.search(r'\b%s\s*(::<[^>]*>)?\(' % re.escape(n), body))
     # anchors that no longer exist: undecided for the properties that function carries (and only for those)
     by_q = dict((c['q'], c) for c in asm.contracted)
